@@ -169,6 +169,22 @@ def eval_case(case: dict) -> dict:
             if got[:len(rendered)] != rendered:
                 viol(f'comment-poured-into-{how_pour}-loses-its-rendering', rendered=rendered[:6],
                      got=got[:6])
+        # a comment that is still empty when it is handed over as the contents of a namespace,
+        # struct or class (a notes block filled later): whatever is added through the clause's
+        # contents afterwards is comment text of that comment - never code between the braces
+        if any(ln.strip() for ln in lines):
+            empty = cpp_gen.Comment()
+            which = len(lines) % 3
+            clause = [lambda: cpp_gen.Namespace(scoping_ns(['A']), empty),
+                      lambda: cpp_gen.Struct('S', empty), lambda: cpp_gen.Class('K', empty)][which]()
+            clause.contents += T.decode(enc, text_gen.TextBlock)
+            head = 1 if which == 0 else 2
+            inner = str(clause).split('\n')[:-1][head:-1]
+            cnt['clauses_whose_empty_comment_was_filled_after_hand_over'] = 1
+            bare = [ln for ln in inner if ln.strip() and not ln.lstrip().startswith('//')]
+            if bare:
+                viol('text-added-to-a-comment-held-by-a-clause-renders-as-code',
+                     clause=['namespace', 'struct', 'class'][which], lines=bare[:4])
         # the same text as the description block of a user-made support file (SupportFileCfg +
         # generate_cpp_code): everything before '#pragma once' is comment, the block handed
         # over is left as it was, and generating twice gives the same file
@@ -342,6 +358,7 @@ def main(tier: str) -> int:
     run.require('comments_rendered', 'comment_lines_judged', 'content_is_a_headed_text_block',
                 'pieces_that_are_one_object_at_several_places',
                 'comments_with_lines_beyond_252_characters',
+                'clauses_whose_empty_comment_was_filled_after_hand_over',
                 'content_holds_a_headed_text_block', 'filled_via_iadd', 'filled_via_append', 'with_unusual_separators',
                 'extended_after_render', 'changed_after_render_via_lines-list',
                 'changed_after_render_via_lines-setter', 'changed_after_render_via_trim',
